@@ -112,6 +112,7 @@ impl<T: Lin + Send + 'static, O: Operator<Out = T>> Operator for Probe<T, O> {
         let pid = self.id;
         let coord = self.coord;
         let data_seen = self.data_seen;
+        let mut payload = 0u8;
         let crash = rec::with(|r| {
             r.seq += 1;
             let seq = r.seq;
@@ -137,6 +138,7 @@ impl<T: Lin + Send + 'static, O: Operator<Out = T>> Operator for Probe<T, O> {
                     let hit = ord == c.replica_ordinal % n_repl.max(1)
                         && ((kind <= K_TS && data_seen == c.nth) || (kind == K_FAR && data_seen <= c.nth));
                     if hit {
+                        payload = c.payload;
                         r.crash_fired = true;
                         r.crash_site = Some((pid, coord, data_seen));
                     }
@@ -150,7 +152,11 @@ impl<T: Lin + Send + 'static, O: Operator<Out = T>> Operator for Probe<T, O> {
         }
         if crash {
             simrt::rt::fired(simrt::Fk::UserPanic);
-            panic!("injected user function panic at probe {} {:?}", pid, coord);
+            match payload {
+                1 => std::panic::panic_any(crate::rec::InjectedError(pid)),
+                2 => panic!("injected user function panic"),
+                _ => panic!("injected user function panic at probe {} {:?}", pid, coord),
+            }
         }
         if self.yield_permille > 0 && (kind >= K_WM || simrt::rt::sched_draw(1000) < self.yield_permille) {
             simrt::yield_now();
